@@ -844,8 +844,18 @@ func TestVerif_C08_RaftLive(t *testing.T) {
 		"one live single-node RaftBackend per process; per case <= 30 actions over 5 keys in 2 directories under a fresh key prefix: start async put/delete, begin (read-write or read-only) transaction in one of 3 slots, transaction get/put/delete/list-page, start async commit, rollback, burst (2..4 puts/deletes/commits started behind a held log store so that raft hands them to the FSM as one multi-entry batch), release one FSM batch, quiesce; the FSM apply gate parks every batch so the FSM lags raft's applied index by the generated number of batches; class caught-up = transactions begin only after the queue was drained; oracle = replay of the raft log store; non-trivial = a transaction began while the FSM was >= 1 batch behind raft's applied index and its commit entry follows >= 1 write to something it observed, or a commit entry reached the FSM in one batch behind a write to something the transaction observed")
 	defer rec.Flush()
 	env := c08NewEnv(t)
-	ctx := context.Background()
 	rapid.Check(t, func(rt *rapid.T) {
+		c08RunCase(rt, rec, env, func(r *c08Run, caseStart uint64, caughtUpOnly bool, maxLagAtBegin uint64, digest uint64) {
+			c08Judge(rt, rec, r, caseStart, caughtUpOnly, maxLagAtBegin, digest)
+		})
+	})
+}
+
+// c08RunCase generates one schedule, runs it on the live backend of env up to quiescence and hands the run to
+// judge (still inside the case: the clean-up runs afterwards, also when rapid aborts the case).
+func c08RunCase(rt *rapid.T, rec *verifx.Recorder, env *c08Env, judge func(r *c08Run, caseStart uint64, caughtUpOnly bool, maxLagAtBegin uint64, digest uint64)) {
+	ctx := context.Background()
+	{
 		caughtUpOnly := rapid.IntRange(0, 9).Draw(rt, "beginOnlyWhenFSMCaughtUp") >= 7
 		// rapid's slices average min+5 elements; concatenated chunks give long schedules that still shrink by deletion
 		var actions []c08Action
@@ -1117,8 +1127,8 @@ func TestVerif_C08_RaftLive(t *testing.T) {
 				t.Finish = "rollback(end)"
 			}
 		}
-		c08Judge(rt, rec, r, caseStart, caughtUpOnly, maxLagAtBegin, verifx.Digest("c08b", caughtUpOnly, fmt.Sprint(actions)))
-	})
+		judge(r, caseStart, caughtUpOnly, maxLagAtBegin, verifx.Digest("c08b", caughtUpOnly, fmt.Sprint(actions)))
+	}
 }
 
 var c08IndexRe = regexp.MustCompile(`@(\d+)`)
@@ -1161,6 +1171,7 @@ func (r *c08Run) detail(extra map[string]any) map[string]any {
 type c08LogEntry struct {
 	Index uint64
 	Data  *LogData
+	Raw   []byte
 }
 
 func c08ReadLog(rt *rapid.T, b *RaftBackend, from uint64) []c08LogEntry {
@@ -1184,7 +1195,7 @@ func c08ReadLog(rt *rapid.T, b *RaftBackend, from uint64) []c08LogEntry {
 		if err := proto.Unmarshal(l.Data, ld); err != nil {
 			rt.Fatalf("harness: decode log %d: %v", i, err)
 		}
-		out = append(out, c08LogEntry{Index: i, Data: ld})
+		out = append(out, c08LogEntry{Index: i, Data: ld, Raw: l.Data})
 	}
 	return out
 }
